@@ -20,7 +20,7 @@ var _ proxy.BeforeRequestHandler = (*Server)(nil)
 //
 // TODO(d.kolyshev): Extract to separate package.
 func (s *Server) HandleBefore(
-	_ *proxy.Proxy,
+	p *proxy.Proxy,
 	pctx *proxy.DNSContext,
 ) (err error) {
 	clientID, err := s.clientIDFromDNSContext(pctx)
@@ -48,12 +48,28 @@ func (s *Server) HandleBefore(
 	}
 
 	if clientID != "" {
-		key := [8]byte{}
-		binary.BigEndian.PutUint64(key[:], pctx.RequestID)
-		s.clientIDCache.Set(key[:], []byte(clientID))
+		s.cacheClientID(p, pctx.RequestID, clientID)
 	}
 
 	return nil
+}
+
+// cacheClientID stores clientID for the request with the given ID, unless p
+// isn't the current proxy any more.  Request IDs are only unique within one
+// proxy instance, and [Server.Prepare] clears the cache when it creates a new
+// one, so a request of a replaced proxy that is still in flight must not add
+// its ClientID, or a request of the new proxy having the same ID would get it.
+func (s *Server) cacheClientID(p *proxy.Proxy, reqID uint64, clientID string) {
+	s.serverLock.RLock()
+	defer s.serverLock.RUnlock()
+
+	if p != s.dnsProxy {
+		return
+	}
+
+	key := [8]byte{}
+	binary.BigEndian.PutUint64(key[:], reqID)
+	s.clientIDCache.Set(key[:], []byte(clientID))
 }
 
 // isBlockedHost returns true if the host is blocked by the current access
